@@ -12,6 +12,31 @@ CHECKS = {
   note="Trusted: Go's bytes.Compare / encoding/binary as the reference order and varint; well-formedness of variable-length integers is defined by the harness' reference decoders (non-canonical long forms are not called malformed). Values outside the grids are not covered."),
 }
 
+TXN_NOTE = ("Trusted: the harness seams (store RPC wrapper, PD wrapper, virtual clock shims injected by import rewriting of `time`/`math/rand`), "
+ "the quiescence detector (Go 1.26 scheduler metrics under GOMAXPROCS=1, cross-checked by stack snapshots), mocktikv as store semantics for 2PC (itself checked by C12; two defects found through these checks were fixed). "
+ "Interleavings are at seam granularity (RPC / TSO request / API boundary / virtual timer); bounds as reported in the evidence file.")
+
+CHECKS["C01"] = dict(
+  engine="parksched", category="model_checking", design="5/C01",
+  technique="stateless model checking of the implementation: controlled scheduler over real goroutines, exhaustive DFS over seam-event interleavings with a preemption bound, SI auditor on every execution",
+  text="For every pair of small transaction programs of the table (reads, writes, inserts, deletes, pessimistic locks over two colliding keys; layouts with and without a region split) every interleaving of the two clients' TSO requests, store RPCs (incl. background), API boundaries and virtual back-off timers with <= P preemptions is executed on the real client code, and the recorded history is audited against the MVCC ground truth (read values, lost updates, insert semantics, real-time order, one commit ts). Bounded-exhaustive, no sampling; a time budget may cut the table (reported as exhaustive:false with the covered part).",
+  note=TXN_NOTE)
+CHECKS["C02"] = dict(
+  engine="parksched", category="fault_enumeration", design="5/C02",
+  technique="crash-point enumeration on the implementation: the victim client is killed at every seam event index (request undelivered / delivered-unanswered), exhaustive over shapes x layouts x recovery orders, interleaved with a concurrent actor under a preemption bound",
+  text="Every crash point of Commit (each TSO request and each store RPC, foreground and background, both crash forms) for every victim shape/layout/mode is executed on the real client, then locks expire and real recovery actors (snapshot reader, GC lock resolution, conflicting writer) run; the final MVCC state must be all-or-nothing with one commit ts, lock-free, consistent with what the dead client had been told, and equal to what the recovery reader saw.",
+  note=TXN_NOTE)
+CHECKS["C03"] = dict(
+  engine="parksched", category="fault_enumeration", design="5/C03",
+  technique="fault-script enumeration at the store seam of the implementation (all placements of <= F deviations at every RPC of Commit) combined with bounded-preemption interleaving with a reader whose resolver sees the locks expired",
+  text="All single (quick) and double (thorough) faults from {drop request, drop response, NotLeader, EpochNotMatch, ServerIsBusy, StaleCommand, real region split before delivery, clock jump past the TTL with a concurrent reader/resolver} at every RPC index of the committing client; Commit's answer (nil / definite error / undetermined) is compared with the final MVCC state after forced resolution; 'undetermined' is accepted only when a commit-point message was lost.",
+  note=TXN_NOTE)
+CHECKS["C17"] = dict(
+  engine="seqx", category="model_checking", design="5/C17",
+  technique="explicit-state BFS over the real Latches at method and slot-critical-section granularity (canonical state = white-box slot dump), plus enumeration of Lock/UnLock arrival orders through the real scheduler goroutine",
+  text="All reachable states of <= 4 transactions x <= 3 keys over slot layouts that force collisions, every relative order of start/commit timestamps, every order of first-acquire / wake-up / unlock steps, checked against a ghost holder map (exclusivity, exact staleness, no stuck waiter in any terminal state). Part (b) drives the real LatchesScheduler goroutine through every order of caller steps.",
+  note="Trusted: white-box accessors (tiny, add-only); recycle() kept out by pool size; keys within one Lock distinct; part (b) quiescence detection under GOMAXPROCS=1. Randomized stress named in the property is replaced by deeper exhaustive bounds.")
+
 PENDING = {}
 for p in ALL:
     if p not in CHECKS:
@@ -30,6 +55,8 @@ def main():
      },
      "engines": [
       {"name": "enum", "path": "harness/c19", "serves_properties": ["C19"], "kind_free_text": "bounded exhaustive input enumeration against laws/reference decoders"},
+      {"name": "parksched", "path": "rt/sched", "serves_properties": ["C01", "C02", "C03"], "kind_free_text": "controlled scheduler for real goroutines parked at seam points + deviation-bounded stateless DFS (preemption / fault budgets), replay by event identity, sharded over worker processes"},
+      {"name": "seqx", "path": "harness/c17", "serves_properties": ["C17"], "kind_free_text": "explicit-state BFS over operation sequences of real objects against a reference model"},
      ],
      "checks": [],
      "not_applicable": [],
